@@ -584,6 +584,8 @@ func (vf *VerifyFunc) lookup(st *State, fr *Frame, x *ssa.Lookup) *Val {
 	if vs == SInt {
 		st.assume(rangeFact(mt.Elem(), val))
 	}
+	// values stored in a map are well-formed values of their type (slice shape, string / byte lengths, non-negative refs)
+	st.typeFacts(&Val{T: mt.Elem(), S: vs, Tm: val})
 	if _, isSig := mt.Elem().Underlying().(*types.Signature); isSig {
 		v.Fn = nil
 	}
